@@ -25,6 +25,8 @@ type concProg struct {
 	PSpawn    []int // 0: spawn(f, a...)  1: f.spawn(a...)  2: go f(a...)
 	CSpawn    []int
 	MainRecv  bool // main is the only receiver
+	NilEvery  int  // >0: senders also send a nil payload after every NilEvery-th value (range receivers only)
+	NilSent   int
 	Total     int
 	ConsFirst bool
 }
@@ -50,11 +52,23 @@ func genConc(g *sim.Stream, tier string) *concProg {
 		p.M = append(p.M, m)
 		p.Total += m
 		p.SendForm = append(p.SendForm, g.Intn(2))
-		p.PSpawn = append(p.PSpawn, g.Intn(3))
+		p.PSpawn = append(p.PSpawn, g.Intn(5))
 	}
 	for i := 0; i < p.R; i++ {
 		p.RecvForm = append(p.RecvForm, g.Intn(4))
 		p.CSpawn = append(p.CSpawn, g.Intn(3))
+	}
+	allRange := !p.MainRecv
+	for _, f := range p.RecvForm {
+		if f > 1 {
+			allRange = false
+		}
+	}
+	if allRange && g.Chance(1, 3) {
+		p.NilEvery = 1 + g.Intn(3)
+		for _, m := range p.M {
+			p.NilSent += m / p.NilEvery
+		}
 	}
 	var b strings.Builder
 	w := func(f string, a ...any) { fmt.Fprintf(&b, f+"\n", a...) }
@@ -73,13 +87,19 @@ func genConc(g *sim.Stream, tier string) *concProg {
 			w("    c.send(v)")
 		}
 		w("    sent(id, i)")
+		if p.NilEvery > 0 {
+			// nil is a value like any other: a range loop must deliver it and go on
+			w("    if (i + 1) %% %d == 0 { c <- nil; nilsent(id) }", p.NilEvery)
+		}
 		w("  }")
 		w("  return id*7 + n")
 		w("}")
 		w("func gproducer%d(id, n) { producer%d(id, n); pdone <- id }", form, form)
 	}
-	w("func consumer0(rid) { k := 0; rinv(rid); for _, v := range c { emit(rid, v); k++; rinv(rid) }; rend(rid); return k }")
-	w("func consumer1(rid) { k := 0; rinv(rid); for v in c { emit(rid, v); k++; rinv(rid) }; rend(rid); return k }")
+	w("func consumer0(rid) { k := 0; rinv(rid); for _, v := range c { if v == nil { gotnil(rid) } else { emit(rid, v); k++ }; rinv(rid) }; rend(rid); return k }")
+	w("func consumer1(rid) { k := 0; rinv(rid); for v in c { if v == nil { gotnil(rid) } else { emit(rid, v); k++ }; rinv(rid) }; rend(rid); return k }")
+	// closures made from ONE function literal, each with its own captured tag
+	w("func mkp(tag, form) { return func(id, n) { ptag(id, tag); if form == 0 { return producer0(id, n) }; return producer1(id, n) } }")
 	w("func consumer2(rid) { k := 0; for { rinv(rid); v := <-c; if v == nil { rend(rid); break }; emit(rid, v); k++ }; return k }")
 	w("func consumer3(rid) { k := 0; for { rinv(rid); v := c.receive(); if v == nil { rend(rid); break }; emit(rid, v); k++ }; return k }")
 	for form := 0; form < 4; form++ {
@@ -117,6 +137,12 @@ func genConc(g *sim.Stream, tier string) *concProg {
 				w("pts.append([pid, %s.spawn(pid, n)])", f)
 			case 2:
 				w("go g%s(pid, n)", f)
+			case 3:
+				w("cl%d := mkp(pid*11+3, %d)", i, p.SendForm[i])
+				w("pts.append([pid, cl%d.spawn(pid, n)])", i)
+			case 4:
+				w("cl%d := mkp(pid*11+3, %d)", i, p.SendForm[i])
+				w("pts.append([pid, spawn(cl%d, pid, n)])", i)
 			}
 			w("pid = -7")
 			w("n = -9")
@@ -280,7 +306,7 @@ func runC10(rc *fw.RunCtx) {
 	s := sim.New(stratStream, strat, maxSteps)
 	h := &Host{}
 	extra := map[string]any{}
-	for _, n := range []string{"pstart", "sinv", "sent", "rinv", "emit", "rend", "cinv", "closed", "waited"} {
+	for _, n := range []string{"pstart", "sinv", "sent", "rinv", "emit", "rend", "cinv", "closed", "waited", "nilsent", "gotnil", "ptag"} {
 		extra[n] = h.Recorder(n)
 	}
 	ctx, cancel := context.WithCancel(context.Background())
@@ -333,6 +359,7 @@ func runC10(rc *fw.RunCtx) {
 	pendingRinv := map[int]int64{}
 	started := map[[2]int]int{}
 	var closeInv, closeRet int64 = -1, -1
+	nilSent, nilGot, tagged := 0, 0, 0
 	waitedP := map[int]int64{}
 	waitedC := map[int]int64{}
 	arg := func(e HostEvent, i int) int {
@@ -369,6 +396,16 @@ func runC10(rc *fw.RunCtx) {
 		case "rend":
 			rid := arg(e, 0)
 			recvs = append(recvs, &recvRec{rid: rid, isNil: true, v: -1, inv: pendingRinv[rid], ret: e.Seq})
+		case "nilsent":
+			nilSent++
+		case "gotnil":
+			nilGot++
+		case "ptag":
+			if arg(e, 1) != arg(e, 0)*11+3 {
+				rc.Violate("spawn/closure-identity", "producer %d ran inside a closure created for tag %d (expected tag %d): the spawned call is not the closure that was spawned", arg(e, 0), arg(e, 1), arg(e, 0)*11+3)
+				return
+			}
+			tagged++
 		case "cinv":
 			closeInv = e.Seq
 		case "closed":
@@ -440,6 +477,20 @@ func runC10(rc *fw.RunCtx) {
 		rc.Violate("conservation/"+locus, "lost=%v duplicated=%v (sent %d values, received %d)", lost, dup, len(sendOrder), len(recvs))
 		return
 	}
+	if nilSent != prog.NilSent || nilGot != nilSent {
+		rc.Violate("conservation/nil-payload", "%d nil payloads were sent (expected %d) and %d were delivered by the ranging receivers", nilSent, prog.NilSent, nilGot)
+		return
+	}
+	wantTagged := 0
+	for _, f := range prog.PSpawn {
+		if f >= 3 {
+			wantTagged++
+		}
+	}
+	if tagged != wantTagged {
+		rc.Violate("spawn/closure-identity", "%d closure-made producers reported their tag, expected %d", tagged, wantTagged)
+		return
+	}
 	// 2. per-sender order within each receiver's sequence
 	for rid, vs := range perRecv {
 		last := map[int]int{}
@@ -508,7 +559,9 @@ func runC10(rc *fw.RunCtx) {
 	if closeInv >= 0 && closeRet >= 0 {
 		ops = append(ops, porcupine.Operation{ClientId: 8, Input: qIn{Op: 2}, Call: closeInv, Output: qOut{}, Return: closeRet})
 	}
-	if len(ops) <= 60 {
+	if prog.NilEvery > 0 {
+		rc.Hit("linearizability_skipped_nil_payloads")
+	} else if len(ops) <= 60 {
 		res := porcupine.CheckOperationsTimeout(queueModel, ops, 30*time.Second)
 		switch res {
 		case porcupine.Illegal:
